@@ -240,7 +240,7 @@ def gen_spans(rng, n, k):
     return out
 
 
-def run_cases(ctx, configs, monitors):
+def run_cases(ctx, configs, monitors, shape_of=None):
     """configs: list of dict(plain, spans, source, mode, dmp, pos=None).  Runs the implementation, the
     monitors, and returns correspondence cases."""
     cases = []
@@ -263,7 +263,7 @@ def run_cases(ctx, configs, monitors):
         for name, mon in monitors:
             bad = mon(cf, annots, out)
             if bad:
-                ctx.violation(None, f"{name}: {bad}", dict(stream="annotate", plain=plain, spans=spans, source=source,
+                ctx.violation(shape_of(cf) if shape_of else None, f"{name}: {bad}", dict(stream="annotate", plain=plain, spans=spans, source=source,
                                                             mode=mode, use_dmp=dmp, output=out))
         desc = dict(stream="annotate", plain=plain, spans=spans, source=source, mode=mode, use_dmp=dmp, impl=out)
         cases.append((case_term(table, plain, annots, source, steps, mode), expected_term(out), desc))
